@@ -41,7 +41,7 @@ FILE_CHECKS = [
     (r"src/gm2_slha_io\.(cpp|hpp)|src/slhaea\.h", ["C13", "C14", "C16", "C15"]),
     (r"src/gm2calc\.cpp", ["C15", "C16", "C13", "C14"]),
     (r"src/.*_c\.cpp", ["C17"]),
-    (r"src/SM/SM\.cpp|src/gm2_mf\.cpp", ["C20", "C08", "C09"]),
+    (r"src/SM/SM\.cpp|src/gm2_mf\.cpp", ["C20", "C13", "C08", "C09"]),
     (r"src/gm2_raii\.hpp", ["C19", "C04", "C08"]),
 ]
 
